@@ -262,6 +262,13 @@ theorem pHandleLaunch_inv {b caps Ks p} (cp : PCP) (h : PInv b caps Ks p cp) :
         rw [hdi0]; cases hx : cp.disps[i].kern with
         | none => rfl
         | some _ => rw [hx] at hp; simp at hp
+      cases hl : launchFits cp.pool k with
+      | false =>
+        -- the launch is rejected: nothing changes but the fault
+        simp only [Bool.not_false, if_true]
+        exact PInv_congr cp _ h rfl rfl rfl (by show some "oversize" ≠ some "twice"; simp) rfl hdr.symm rfl
+      | true =>
+      simp only [Bool.not_true, Bool.false_eq_true, if_false]
       by_cases hz : cp.pool.length = 0
       · simp only [hz, if_true]
         exact PInv_congr cp _ h rfl rfl rfl (by show some "div0" ≠ some "twice"; simp) rfl hdr.symm rfl
